@@ -1,5 +1,5 @@
 NAME = 'I-update'
-PROPERTIES = ['C02']
+PROPERTIES = ['C02', 'C15']
 ENGINE = 'verus'
 CLASS = 'U'
 DOC = ('Database::update_indexes_for_update (storage database/core.rs), the call through which UPDATE (and INSERT .. ON DUPLICATE KEY UPDATE) maintain the CREATE INDEX '
